@@ -969,4 +969,7 @@ func runC10(c *Ctx) {
 	fc, fr := reportFollowerRounds(c, fCombos, fObs)
 	c.Emit("follower", "calls of one heart-beat round of the real serviceDiscovery as a follower vs Membership.fh_round",
 		[]string{"Model.Membership", "Corr.CorrC10"}, "(bool * bool * bool) * list fhout * bool", "chk_follower", fc, fr, 60)
+	// (D) dynamic membership: the numbering arrives through the API (PUT /membership/info of the real api.NewAPI) and is
+	// announced on the bus exactly when it differs from the one in effect
+	runC16API(c)
 }
